@@ -63,23 +63,34 @@ P_Test == /\ pc[P] = "p_test"
           /\ UNCHANGED <<mutex, task, done, nextFile, holding, written, wset, spur>>
 P_Wait == Wait(P, "p_wait", "produce", "p_waiting")
 P_Reacquire == Lock(P, "p_woken", "p_test")
+\* Putting a task and finishing change the shared state under the mutex; the wake-up call may come before or
+\* after the unlock (both are correct uses of a condition variable), so both orders are behaviours of the model.
 P_Put == /\ pc[P] = "p_put" /\ mutex = Owner(P) /\ task' = nextFile /\ nextFile' = nextFile + 1 /\ Goto(P, "p_signal")
          /\ UNCHANGED <<mutex, done, holding, written, wset, spur>>
-\* signal(consume): wakes one waiter if there is one
-P_Signal == /\ pc[P] = "p_signal"
-            /\ IF wset["consume"] = {} THEN /\ Goto(P, "p_unlock") /\ UNCHANGED wset
-               ELSE \E w \in wset["consume"] : /\ wset' = [wset EXCEPT !["consume"] = @ \ {w}]
-                                                /\ pc' = [pc EXCEPT ![P] = "p_unlock", ![w] = "w_woken"]
+SignalConsume(to) ==
+    IF wset["consume"] = {} THEN /\ Goto(P, to) /\ UNCHANGED wset
+    ELSE \E w \in wset["consume"] : /\ wset' = [wset EXCEPT !["consume"] = @ \ {w}]
+                                     /\ pc' = [pc EXCEPT ![P] = to, ![w] = "w_woken"]
+P_Signal == /\ pc[P] = "p_signal" /\ SignalConsume("p_unlock")
             /\ UNCHANGED <<mutex, task, done, nextFile, holding, written, spur>>
 P_Unlock == /\ pc[P] = "p_unlock" /\ mutex' = None /\ Goto(P, "p_lock")
             /\ UNCHANGED <<task, done, nextFile, holding, written, wset, spur>>
-P_Finish == /\ pc[P] = "p_finish" /\ mutex = Owner(P) /\ done' = TRUE
-            \* broadcast(consume)
-            /\ pc' = [t \in Threads |-> IF t = P THEN "p_funlock" ELSE IF t \in wset["consume"] THEN "w_woken" ELSE pc[t]]
-            /\ wset' = [wset EXCEPT !["consume"] = {}]
-            /\ UNCHANGED <<mutex, task, nextFile, holding, written, spur>>
+P_UnlockFirst == /\ pc[P] = "p_signal" /\ mutex = Owner(P) /\ mutex' = None /\ Goto(P, "p_signal_late")
+                 /\ UNCHANGED <<task, done, nextFile, holding, written, wset, spur>>
+P_SignalLate == /\ pc[P] = "p_signal_late" /\ SignalConsume("p_lock")
+                /\ UNCHANGED <<mutex, task, done, nextFile, holding, written, spur>>
+P_Finish == /\ pc[P] = "p_finish" /\ mutex = Owner(P) /\ done' = TRUE /\ Goto(P, "p_broadcast")
+            /\ UNCHANGED <<mutex, task, nextFile, holding, written, wset, spur>>
+Broadcast(to) == /\ pc' = [t \in Threads |-> IF t = P THEN to ELSE IF t \in wset["consume"] THEN "w_woken" ELSE pc[t]]
+                 /\ wset' = [wset EXCEPT !["consume"] = {}]
+P_Broadcast == /\ pc[P] = "p_broadcast" /\ Broadcast("p_funlock")
+               /\ UNCHANGED <<mutex, task, done, nextFile, holding, written, spur>>
 P_FUnlock == /\ pc[P] = "p_funlock" /\ mutex' = None /\ Goto(P, "p_join")
              /\ UNCHANGED <<task, done, nextFile, holding, written, wset, spur>>
+P_FUnlockFirst == /\ pc[P] = "p_broadcast" /\ mutex = Owner(P) /\ mutex' = None /\ Goto(P, "p_broadcast_late")
+                  /\ UNCHANGED <<task, done, nextFile, holding, written, wset, spur>>
+P_BroadcastLate == /\ pc[P] = "p_broadcast_late" /\ Broadcast("p_join")
+                   /\ UNCHANGED <<mutex, task, done, nextFile, holding, written, spur>>
 P_Join == /\ pc[P] = "p_join" /\ \A w \in Workers : pc[w] = "w_exit" /\ Goto(P, "p_done")
           /\ UNCHANGED <<mutex, task, done, nextFile, holding, written, wset, spur>>
 
@@ -116,13 +127,15 @@ Spurious == /\ spur > 0 /\ \E cv \in {"produce", "consume"} : \E t \in wset[cv] 
             /\ UNCHANGED <<mutex, task, done, nextFile, holding, written>>
 
 Terminated == pc[P] = "p_done"
-Next == \/ P_Lock \/ P_Test \/ P_Wait \/ P_Reacquire \/ P_Put \/ P_Signal \/ P_Unlock \/ P_Finish \/ P_FUnlock \/ P_Join
+PSteps == P_Lock \/ P_Test \/ P_Wait \/ P_Reacquire \/ P_Put \/ P_Signal \/ P_Unlock \/ P_UnlockFirst \/ P_SignalLate
+          \/ P_Finish \/ P_Broadcast \/ P_FUnlock \/ P_FUnlockFirst \/ P_BroadcastLate \/ P_Join
+Next == \/ PSteps
         \/ \E w \in Workers : W_Lock(w) \/ W_Signal(w) \/ W_Test(w) \/ W_Wait(w) \/ W_Reacquire(w) \/ W_Take(w)
                                \/ W_Unlock(w) \/ W_Work(w) \/ W_ExitUnlock(w)
         \/ Spurious
         \/ (Terminated /\ UNCHANGED vars)
 Spec == Init /\ [][Next]_vars
-FairSpec == Spec /\ WF_vars(P_Lock \/ P_Test \/ P_Wait \/ P_Reacquire \/ P_Put \/ P_Signal \/ P_Unlock \/ P_Finish \/ P_FUnlock \/ P_Join)
+FairSpec == Spec /\ WF_vars(PSteps)
                  /\ \A w \in Workers : WF_vars(W_Lock(w) \/ W_Signal(w) \/ W_Test(w) \/ W_Wait(w) \/ W_Reacquire(w) \/ W_Take(w)
                                                \/ W_Unlock(w) \/ W_Work(w) \/ W_ExitUnlock(w))
 
